@@ -6,7 +6,8 @@
    wf_cat i (Proofs/CatIO.v) is the quantifier's "well-formed categorical instance with at least one ballot":
    >= 1 ballot; every ballot has exactly c_num_categories >= 1 categories (any of them may be empty, singleton or
    larger, alternatives in any order, alternatives may be left unplaced); multiplicities >= 1; the keys of the
-   multiplicity table are the ballot list, duplicate-free; the nine metadata fields and all alternative / category
+   multiplicity table are the ballots of the list (duplicate-free), in ANY key order — the dict need not have
+   been filled in the order of the list; the nine metadata fields and all alternative / category
    names are free of the ten line boundaries and of outer whitespace (they may be EMPTY); data_type = "cat";
    alternative ids distinct, category ids distinct; no parser state (reserved_names empty).  The three header
    counts are NOT required to agree with the ballots (the writer copies them, the reader returns them). *)
@@ -104,7 +105,8 @@ Print Assumptions C08_tokenizer_spec.
 (* ---- the hypotheses are satisfiable: a concrete instance ------------------------------------------------- *)
 (* three categories (one with an EMPTY name), an alternative with an EMPTY name, ballots with empty categories
    first / middle / last, consecutive empties, an all-empty ballot, a category listed in decreasing order,
-   two ballots that differ only inside a category, multiplicity ties *)
+   two ballots that differ only inside a category, multiplicity ties; the multiplicity table is keyed in the
+   REVERSE order of the ballot list and the name dicts are not in ascending id order *)
 Definition ex_meta : meta :=
   mkMeta (lit "f.cat") (lit "a title: {1, 2}") [] (lit "cat") (lit "original") [] (lit "a.cat,b.cat")
          (lit "2020-01-01") [] 3 17
@@ -113,7 +115,7 @@ Definition ex_ballots : list (ballot * N) :=
   [ ([[]; [1]; [2; 30]], 2); ([[1; 2]; []; []], 2); ([[]; []; []], 1); ([[30]; [2]; [1]], 5);
     ([[2; 1]; []; []], 2); ([[]; []; [30; 2; 1]], 5) ]%N.
 Definition ex_inst : cinst :=
-  mkCinst ex_meta 6 3 [(1%N, lit "good"); (2%N, []); (3%N, lit "bad, really")] (map fst ex_ballots) ex_ballots.
+  mkCinst ex_meta 6 3 [(3%N, lit "bad, really"); (1%N, lit "good"); (2%N, [])] (map fst ex_ballots) (rev ex_ballots).
 
 Example C08_example_wf : wf_cat ex_inst.
 Proof.
@@ -122,7 +124,7 @@ Proof.
   - discriminate.
   - repeat constructor.
   - repeat constructor; discriminate.
-  - reflexivity.
+  - unfold ex_inst, c_mult, c_prefs. rewrite map_rev. apply Permutation_sym, Permutation_rev.
   - repeat constructor; simpl; intuition discriminate.
   - repeat split; reflexivity.
   - reflexivity.
